@@ -1,6 +1,6 @@
 (* Property C06 - throttle: transparent within budget, clean cuts, restarts only with a full
    clip, paired calls, one event per incident. *)
-From Coq Require Import List ZArith Bool.
+From Coq Require Import String List ZArith Bool.
 From TR Require Import model.Throttle model.ThrottleSpec proofs.ThrottleProofs proofs.ThrottleC06 model.ThrExt proofs.TieThrottle proofs.TieCorollaries.
 (* constants and wiring read from the Go sources on every run *)
 From TR Require Import proofs.FactsThrottle.
@@ -50,3 +50,84 @@ Example C06_ex :
     [BWrite 2 3 false; Ret false]; [Throttled; BStop false; Ret false]; [Ret false];
     [BStart 7 3000 false; BWrite 5 21 false; Ret false]; [BStop false; Ret false]].
 Proof. vm_compute. auto. Qed.
+
+(* ---- the event sink (throttle/throttled_event_recorder.go): "exactly one 'throttled' event per suppressed start or cut" ----
+   S06e counts the [Throttled] entries of the throttle's trace - the calls of listener.WhenThrottled().  What ONE such call
+   does is the translated ThrottledEventRecorder.WhenThrottled (translated/ThrottleEvents.v, the Go code as it is now) over
+   model/EventsExt.v (clock script, result scripts for json.Marshal / dbus.SystemBus / the D-Bus call, a log of every call
+   made); proofs/TieEvents.v.  Every theorem is for EVERY state of that world. *)
+From TR Require Import model.GoSem translated.ThrottleEvents model.EventsExt proofs.TieEvents.
+
+(* it never panics, returns nothing (no error can reach the throttle), and leaves the world [when_world] *)
+Theorem C06_source_event_tie : forall w, src_when w = Ok tt (when_world w).
+Proof. exact tie_WhenThrottled. Qed.
+
+Theorem C06_source_event_log : forall w,
+    elog_since w (when_world w) = when_log w /\
+    when_log w =
+      match marshal_of w with
+      | Some e => [XNow (now_of w); XMarshal false; XLogLine MSG (Zpos e)]
+      | None =>
+        match bus_of w with
+        | Some e => [XNow (now_of w); XMarshal true; XBus false; XLogLine MSG (Zpos e)]
+        | None =>
+          match call_of w with
+          | Some e => [XNow (now_of w); XMarshal true; XBus true; queue_ev (now_of w) (Zpos e); XLogLine MSG (Zpos e)]
+          | None => [XNow (now_of w); XMarshal true; XBus true; queue_ev (now_of w) 0]
+          end
+        end
+      end.
+Proof. exact when_log_unfolded. Qed.
+
+(* at most one D-Bus call per WhenThrottled; exactly one iff neither json.Marshal nor dbus.SystemBus fails *)
+Theorem C06_source_event_at_most_one : forall w, (List.length (queue_calls (when_log w)) <= 1)%nat.
+Proof. exact when_at_most_one. Qed.
+
+Theorem C06_source_event_exactly_one_iff : forall w,
+    List.length (queue_calls (when_log w)) = 1%nat <-> marshal_of w = None /\ bus_of w = None.
+Proof. exact when_exactly_one_iff. Qed.
+
+(* the call made: org.cacophony.Events.Queue on (org.cacophony.Events, /org/cacophony/Events), flags 0, details
+   {"description": {"type": "throttle"}}, time stamp = the clock reading taken at entry - the first thing the function does *)
+Theorem C06_source_event_queue_shape : forall w e,
+    In e (queue_calls (when_log w)) ->
+    e = XCall "org.cacophony.Events" "/org/cacophony/Events" "org.cacophony.Events.Queue" 0
+              [("description"%string, JMap [("type"%string, JStr "throttle")])] (now_of w) (xerr (call_of w)).
+Proof. exact when_queue_shape. Qed.
+
+Theorem C06_source_event_reads_clock_first : forall w,
+    exists rest, when_log w = XNow (now_of w) :: rest /\
+                 forallb (fun e => match e with XNow _ => false | _ => true end) rest = true.
+Proof. exact when_reads_clock_first. Qed.
+
+(* an event that cannot be delivered is only logged: one line carrying the error of the first thing that failed *)
+Theorem C06_source_event_failure_logged : forall w,
+    filter is_line (when_log w) = match when_failure w with Some e => [XLogLine MSG (Zpos e)] | None => [] end.
+Proof. exact when_failure_logged. Qed.
+
+Theorem C06_source_event_no_bad_call : forall w, filter is_xbad (when_log w) = [].
+Proof. exact when_no_bad. Qed.
+
+(* one WhenThrottled per [Throttled] entry of a throttle trace: never a panic, never more Queue calls than entries; with
+   json.Marshal and the system bus working exactly one per entry - [count_throttled] of S06e, summed over the trace -
+   stamped with the clock readings in order *)
+Theorem C06_source_event_per_incident : forall tr w,
+    src_when_n (incidents tr) w = Some (when_n_world (incidents tr) w) /\
+    elog_since w (when_n_world (incidents tr) w) = when_n_log (incidents tr) w /\
+    (Z.of_nat (List.length (queue_calls (when_n_log (incidents tr) w))) <= fold_right Z.add 0 (map count_throttled tr)) /\
+    (healthy (ew_marshal w) -> healthy (ew_bus w) ->
+     queue_calls (when_n_log (incidents tr) w) = expected_queue (incidents tr) (ew_clock w) (ew_call w) /\
+     Z.of_nat (List.length (queue_calls (when_n_log (incidents tr) w))) = fold_right Z.add 0 (map count_throttled tr)).
+Proof. exact events_per_incident. Qed.
+
+Theorem C06_source_event_translated :
+    untranslated_ThrottleEvents = [] /\ forallb (fun n => existsb (String.eqb n) eext_names) ext_names_ThrottleEvents = true.
+Proof. exact (conj events_untranslated events_ext_names_known). Qed.
+
+(* non-vacuity (evaluated): three incidents - delivered; the bus is down; delivered but the events service answers with an error *)
+Example C06_source_event_ex :
+  show_when (src_when_n 3 (ew_init [1000; 2000; 3000] [] [None; Some 7%positive] [None; Some 9%positive])) =
+    Some [XNow 1000; XMarshal true; XBus true; queue_ev 1000 0;
+          XNow 2000; XMarshal true; XBus false; XLogLine MSG 7;
+          XNow 3000; XMarshal true; XBus true; queue_ev 3000 9; XLogLine MSG 9].
+Proof. exact ex_when. Qed.
